@@ -515,3 +515,8 @@ fn eval_constraint<const N: usize>(vals: &[Value; N], constraint: &Constraint) -
         Constraint::GeConst { col, val } => vals[col.index()] >= *val,
     }
 }
+
+#[cfg(kani)]
+pub(crate) mod verif_kani {
+    include!(concat!(env!("EGGLOG_VERIF_DIR"), "/kani/cr_displaced.rs"));
+}
